@@ -1,5 +1,5 @@
 (** C01 — escrow is exactly backed: holdings equal recorded obligations. *)
-From FM Require Import Backed.
+From FM Require Import Backed Reentrant.
 
 (** [fresh w]: a freshly instantiated marketplace that holds nothing, next to an empty
     registry; everything else — user balances, token ledgers, NFT owners, admins, start time —
@@ -81,5 +81,72 @@ Proof.
     - intros t. unfold winit. simpl. destruct (t =? 10); vm_compute; reflexivity.
     - intros c k. unfold winit. simpl. destruct ((c =? 30) && (k =? 1)); vm_compute; discriminate. }
   split; [vm_compute; repeat split; try discriminate; auto|].
+  cbv zeta. splits; vm_compute; reflexivity.
+Qed.
+
+(** ** Re-entrancy (model/Reentry.v, proofs/Reentrant.v)
+
+    A hostile token contract may call the marketplace again while the marketplace's messages are
+    being dispatched: [rstep w o prog] is the transaction [o] during which the hostile contract
+    performs the operations [prog] (as sub-transactions whose failure it swallows) the moment the
+    marketplace hands it a transfer.  The backing is preserved by every such transaction, whatever
+    the program does — each of its operations finds the marketplace over-collateralised by exactly
+    the messages still in flight and conserves that surplus. *)
+Theorem C01_reentrant_transaction_preserves_backing : forall w o prog,
+  good w -> outside_ok w o -> Forall (outside_ok w) prog -> good (fst (rstep w o prog)).
+Proof. exact rstep_good. Qed.
+Print Assumptions C01_reentrant_transaction_preserves_backing.
+
+(** Inside a transaction: holdings = obligations + what is still in flight, and every operation an
+    outsider performs at that point conserves the difference. *)
+Theorem C01_outsiders_conserve_surplus : forall e w o,
+  sound w -> surplus e w -> outside_ok w o -> surplus e (fst (step w o)).
+Proof. exact step_surplus. Qed.
+Print Assumptions C01_outsiders_conserve_surplus.
+
+(** Over every history of transactions, each with an arbitrary re-entry program. *)
+Theorem C01_escrow_backed_with_reentry : forall w tx, fresh w -> all_routside_ok w tx -> backed (rrun w tx).
+Proof. exact escrow_backed_with_reentry. Qed.
+Print Assumptions C01_escrow_backed_with_reentry.
+
+(** The rule with re-entry extends the plain one. *)
+Theorem C01_reentry_conservative : forall w o, rstep w o [] = step w o.
+Proof. exact rstep_no_program. Qed.
+Print Assumptions C01_reentry_conservative.
+
+(** Non-vacuity: the hostile contract 70 owns a bucket of 100 coins and 5 of its own "tokens";
+    withdrawing it, it is handed the coins, then the token transfer — during which it withdraws
+    again (refused: the record is gone) and opens a new bucket with 450 coins, which it can only
+    afford because the 100 have just arrived. *)
+Definition wre : world :=
+  mkW (fun a d => if (a =? 70) && (d =? 0) then 500 else 0) (fun t a => 0) (fun c k => None)
+      (fun a => if a =? 70 then KHostile else if a =? 50 then KMarket else if a =? 51 then KRegistry else KUser)
+      (fun a => None) (mkS [] [] [0] [0] (JUNO 100) (Some 51)) [] 100000000000 10 false 50 51 52.
+Definition txre : list (op * list op) :=
+  [(Exec 70 [(0, 100)] (CreateBucket 1) None, []);
+   (Exec 70 [] (Receive 70 5 (Some (AddToBucketCw20 1))) None, []);
+   (Exec 70 [] (RemoveBucket 1) None,
+    [Exec 70 [] (RemoveBucket 1) None; Exec 70 [(0, 450)] (CreateBucket 4) None])].
+
+Example C01_reentry_hyps_met :
+  fresh wre /\ all_routside_ok wre txre /\
+  let w' := rrun wre txre in
+  bank w' 50 0 = 450 /\ owed_native (market w') 0 = 450 /\ bank w' 70 0 = 50 /\
+  map fst (buckets (market w')) = [(70, 4)].
+Proof.
+  split.
+  { unfold fresh. split; [exists 100000000000; reflexivity|]. split; [reflexivity|]. split; [vm_compute; discriminate|].
+    split; [reflexivity|]. split; [intros d; reflexivity|]. split; [intros t; reflexivity|].
+    intros c k. discriminate. }
+  split.
+  { vm_compute.
+    repeat match goal with
+           | |- _ /\ _ => split
+           | |- Forall _ _ => constructor
+           | |- _ \/ _ => right; reflexivity
+           | |- _ <> _ => discriminate
+           | |- _ -> False => discriminate
+           | |- True => exact I
+           end. }
   cbv zeta. splits; vm_compute; reflexivity.
 Qed.
